@@ -1,10 +1,14 @@
 PROP = {
     "id": "C27",
     "theorem_modules": ["Verif.Properties.C27"],
-    "min_theorems": 5,
+    "min_theorems": 9,
     "required_theorems": [
         "Verif.Properties.C27.comparator_sound_partial",
         "Verif.Properties.C27.accepted_declaration_compatible_partial",
+        "Verif.Properties.C27.accepted_tree_compatible_partial",
+        "Verif.Properties.C27.values_stay_typed_partial",
+        "Verif.Properties.C27.enum_meaning_stable_partial",
+        "Verif.Properties.C27.interface_never_removed",
         "Verif.Properties.C27.enum_case_stable",
     ],
     "streams": [
@@ -17,16 +21,28 @@ PROP = {
     "technique": "Lean 4 proof over a line-by-line port of the contract update validator and its type comparator + "
                  "correspondence stream on mutated generated contracts (real parser, real validator) + full deploy/update path",
     "level_text": "Lean theorems about a code-shaped model of stdlib/contract_update_validation.go and type-comparator.go "
-                  "(Verif.Model.Update): an accepted comparison of two declarations implies same kind and name, every field of "
-                  "the new declaration present in the old one with a type AST of the same denotation, old enum cases a prefix "
-                  "of the new ones, every old conformance kept, nested declarations missing only under a #removedType pragma "
-                  "and never interfaces; the type comparator identifies only ASTs of the same denotation.  Tied to /repo by "
-                  "the `update` stream: (old, new) pairs produced by mutating generated contracts are parsed by the real "
-                  "parser, serialised (internal/declsx), and the model's verdict and multiset of error kinds is compared with "
-                  "the real ContractUpdateValidator.Validate.",
-    "level_note": "proof (code-shaped model) + CC.  Partial: see the _partial theorems (import maps assumed equal; the "
-                  "induction from the root over paths and stored values is stated in Verif.Spec.Update).  Trusted: the "
-                  "hand-written port (every generated pair compared), the serializer internal/declsx, the driver.",
+                  "(Verif.Model.Update).  Main theorem values_stay_typed_partial: if the validator accepts, every stored "
+                  "value (arbitrarily nested composites, enums, values at interface types by direct or transitive "
+                  "conformance, optionals, arrays, dictionaries) that is well typed under the old declarations and whose "
+                  "composite/enum types are still declared is well typed at the same type under the new ones: every field "
+                  "the new declaration lists is present with a value of the declared type, enum raw values stay in range and "
+                  "keep their case (enum_meaning_stable_partial), every interface conformed to is still conformed to; proved by "
+                  "induction over the path to a nested declaration through the three loops of checkNestedDeclarations "
+                  "(accepted_tree_compatible_partial), over the conformance derivation and over the value.  Interfaces are "
+                  "never removed (interface_never_removed), other declarations only under a #removedType pragma; the type "
+                  "comparator identifies only ASTs of the same denotation.  Tied to /repo by the `update` stream: (old, new) "
+                  "pairs produced by mutating generated contracts are parsed by the real parser, serialised (internal/declsx), "
+                  "and the model's verdict and multiset of error kinds is compared with the real "
+                  "ContractUpdateValidator.Validate; e2e lines run the full path on the real runtime (deploy old, store "
+                  "values of every struct/enum/resource and of container and interface types over them, contracts.update, "
+                  "inspect the stored values with the new code, interpreter and VM) with the direct oracle: update accepted "
+                  "and afterwards a stored value fails to load / lacks or mistypes a declared field / an enum value changes "
+                  "its case / a value is no longer an instance of a former interface.",
+    "level_note": "proof (code-shaped model) + CC.  Partial: values_stay_typed_partial assumes that the import maps of both "
+                  "versions agree on every identifier and that the new program declares no two nested types of the same name "
+                  "at one level (checker); values of types removed under a #removedType pragma are excluded (pathsLive).  "
+                  "Trusted: the hand-written port (every generated pair compared), the serializer internal/declsx, the driver.  "
+                  "Fixed defect 5d4d335 (conformance removal from an interface declaration was accepted).",
     "assumptions": ["the Go type of a declaration node is a function of its DeclarationKind (checked by the reader per line)",
                     "type names resolve at contract level; built-in type names are not redeclared (checker)"],
     "trusted_base": ["hand-written port Verif.Model.Update validated by stream update",
